@@ -63,9 +63,17 @@ def extract(config="rel-all", repo=None, use_cache=True):
     cpath = os.path.join(CACHE, "%s-%s.json" % (config, key))
     info = {"config": config, "features": feats, "flags": flags, "key": key, "cached": False}
     if use_cache and os.path.exists(cpath):
-        info["cached"] = True
-        with open(cpath) as fh:
-            return json.load(fh), info
+        try:
+            with open(cpath) as fh:
+                facts = json.load(fh)
+            try:
+                os.utime(cpath, None)       # an entry in use is not stale
+            except OSError:
+                pass
+            info["cached"] = True
+            return facts, info
+        except (OSError, ValueError):
+            pass                            # pruned or half-written by a concurrent check: extract again
     t0 = time.time()
     tmp = tempfile.mkdtemp(prefix="bumpscan.")
     try:
@@ -91,11 +99,12 @@ def extract(config="rel-all", repo=None, use_cache=True):
         # prune old cache entries for this config, keep the cache small
         for f in os.listdir(CACHE):
             fp = os.path.join(CACHE, f)
-            if f.startswith(config + "-") and time.time() - os.path.getmtime(fp) > 1800:
-                try:
+            try:
+                # several checks may prune concurrently: a file can vanish between listdir and stat
+                if f.startswith(config + "-") and fp != cpath and time.time() - os.path.getmtime(fp) > 1800:
                     os.remove(fp)
-                except OSError:
-                    pass
+            except OSError:
+                pass
         tmpc = cpath + ".%d.tmp" % os.getpid()
         shutil.copy(out, tmpc)
         os.replace(tmpc, cpath)
